@@ -54,10 +54,37 @@ func c19Init() {
 	// the empty id: a clock value like any other for the comparators (it sorts before every other id at equal time)
 	ids := [][]byte{idA, idB, idP, idU, idL, {}}
 	idn := []string{"A", "B", "Aprefix", "Ab-writer", "aB-writer", "empty"}
+	// Three hashes of mixed identifier versions: two CIDv1 (dag-cbor, as the current codec writes) and one CIDv0
+	// (as the legacy codec writes), chosen so that the orders one might compare them by disagree: as identifier
+	// strings the v0 one comes first ("Qm..." < "bafy..."), while by the base58 text of the digests it lies between the
+	// two v1 ones, and by raw digest bytes the two v1 ones are in the opposite order of their strings if possible.
+	// An ordering that switches criteria between version pairs is then not transitive on this very triple.
 	var hs []cid.Cid
-	for i := 0; i < 3; i++ {
-		c, _ := cid.NewPrefixV1(cid.DagCBOR, 0x12).Sum([]byte(fmt.Sprintf("h%d", i)))
-		hs = append(hs, c)
+	{
+		b58 := func(c cid.Cid) string { return c.Hash().B58String() }
+		var v1s, v0s []cid.Cid
+		for i := 0; i < 24; i++ {
+			c1, _ := cid.NewPrefixV1(cid.DagCBOR, 0x12).Sum([]byte(fmt.Sprintf("h%d", i)))
+			c0, _ := cid.NewPrefixV0(0x12).Sum([]byte(fmt.Sprintf("g%d", i)))
+			v1s, v0s = append(v1s, c1), append(v0s, c0)
+		}
+	search:
+		for _, a := range v1s {
+			for _, b := range v1s {
+				// a before b as strings, b before a by digest text
+				if a.String() < b.String() && b58(b) < b58(a) {
+					for _, z := range v0s {
+						if b58(b) < b58(z) && b58(z) < b58(a) {
+							hs = []cid.Cid{a, b, z}
+							break search
+						}
+					}
+				}
+			}
+		}
+		if hs == nil {
+			panic("c19: no hash triple with disagreeing orders among the candidates")
+		}
 	}
 	sort.Slice(hs, func(i, j int) bool { return hs[i].String() < hs[j].String() })
 	for t := 1; t <= 3; t++ {
